@@ -1960,3 +1960,58 @@ func TestGovcReplay(t *testing.T) {
 		},
 	})
 }
+
+func init() {
+	harnesses = append(harnesses, &harness{
+		name:      "weighted-cluster construction replay (all weights zero; one cluster listed twice)",
+		modelFree: true,
+		match: func(o *Obligation) bool {
+			return strings.HasSuffix(o.Func, "router.NewRouteRuleImplBase") || strings.HasSuffix(o.Func, "router.validateWeightedClusterEntry") || strings.HasSuffix(o.Func, "router.getWeightedClusterEntry")
+		},
+		run: func(eng *Engine, o *Obligation) *ReplayOutcome {
+			src := `package router
+
+import (
+	"context"
+	"fmt"
+	"testing"
+
+	v2 "mosn.io/mosn/pkg/config/v2"
+)
+
+func govcWC(name string, w uint32) v2.WeightedCluster {
+	return v2.WeightedCluster{Cluster: v2.ClusterWeight{ClusterWeightConfig: v2.ClusterWeightConfig{Name: name, Weight: w}}}
+}
+
+func govcTry(label string, wcs []v2.WeightedCluster, draws int) {
+	defer func() {
+		if r := recover(); r != nil {
+			fmt.Printf("REPLAY-CONFIRMED %s: ClusterName panics: %v\n", label, r)
+		}
+	}()
+	base, err := NewRouteRuleImplBase(nil, &v2.Router{RouterConfig: v2.RouterConfig{Route: v2.RouteAction{RouterActionConfig: v2.RouterActionConfig{WeightedClusters: wcs}}}})
+	if err != nil {
+		fmt.Printf("REPLAY-NOT-REPRODUCED %s: rejected at configuration time: %v\n", label, err)
+		return
+	}
+	counts := map[string]int{}
+	for i := 0; i < draws; i++ {
+		counts[base.ClusterName(context.Background())]++
+	}
+	if counts[""] > 0 {
+		fmt.Printf("REPLAY-CONFIRMED %s: %d of %d draws selected no cluster (empty name): %v\n", label, counts[""], draws, counts)
+		return
+	}
+	fmt.Printf("REPLAY-NOT-REPRODUCED %s: %v\n", label, counts)
+}
+
+func TestGovcReplay(t *testing.T) {
+	govcTry("all weights zero", []v2.WeightedCluster{govcWC("a", 0), govcWC("b", 0)}, 10)
+	govcTry("one name listed twice", []v2.WeightedCluster{govcWC("a", 50), govcWC("a", 50)}, 1000)
+}
+`
+			out, _ := runOverlayTest("pkg/router", src, "^TestGovcReplay$")
+			return outcomeFromOutput(src, out)
+		},
+	})
+}
